@@ -6,6 +6,10 @@ package props
 //   fl <k> <n> <e> <off> <self> <comp> <target> <query>
 //      k = word size, n = MinMatch, e = MaxError, off = TubeOffset, self/comp = the two flags of
 //      Filter; target and query in hex ("=" as query: the target sequence itself).
+//   fln <k> <n> <e> <off> <self> <comp> <target> <query>
+//      the same run; the generator of this op puts letters outside the alphabet (runs of n) into
+//      the query and the target, which `fl` never does (C14 is stated for sequences over A,C,G,T;
+//      `fln` is the same statement with a letter outside the alphabet counted as a mismatch).
 // Observation
 //   ok <from.to.diagonal,...>     the hits pulled back from the morass, sorted
 //   err:index:<kind> | err:offset | err:iter | err:other:<hex>
@@ -204,6 +208,11 @@ func c14Case(g *hx.Gen, p c14Par, self, comp bool, t, q []byte) {
 }
 
 func c14Gen(g *hx.Gen) {
+	c14GenFl(g)
+	c14GenN(g)
+}
+
+func c14GenFl(g *hx.Gen) {
 	total := g.Scale(1500, 15000)
 	for i := 0; i < total && !g.Done(); i++ {
 		p := c14Params(g)
@@ -258,8 +267,42 @@ func c14Gen(g *hx.Gen) {
 				}
 			}
 			c14Case(g, p, true, false, t, nil)
-		case mode == 1 && g.Chance(0.5): // complemented self comparison (outside the stated property: model only)
-			c14Case(g, p, true, true, t, c14RevComp(t))
+		case mode == 1: // complemented self comparison, as PALS.Align(true) drives it
+			// Inverted repeats: t[y:y+L] = revcomp(t[x:x+L]). Against revcomp(t) this is the match
+			// (a,b) = (y, tl-x-L) and its mirror image (x, tl-y-L), one on each side of the
+			// anti-diagonal a+b = tl on which the self-comparison cut of this strand acts.
+			for j := g.Pick(1, 2, 4); j > 0; j-- {
+				L := p.n + g.Pick(0, 0, 1, 3, 10, 40)
+				x, y := g.Intn(tl), g.Intn(tl)
+				if g.Chance(0.5) { // arms adjacent or overlapping (hairpin without loop): on and next to the anti-diagonal
+					y = x + L + g.Pick(-p.n, -p.k, -3, -2, -1, 0, 0, 0, 1, 2, 3, p.k)
+				}
+				if x >= 0 && y >= 0 && x+L <= tl && y+L <= tl {
+					rc := c14RevComp(t[x : x+L])
+					c14Plant(g, rc, t, 0, y, L, g.Range(0, p.e+1))
+				}
+			}
+			if g.Chance(0.25) { // a stretch that is its own reverse complement: (at)* or (acgt)*
+				u := []string{"at", "acgt", "ta", "gc"}[g.Intn(4)]
+				from := g.Intn(tl)
+				for i := from; i < tl && i < from+4*p.n; i++ {
+					t[i] = u[(i-from)%len(u)]
+				}
+			}
+			if g.Chance(0.8) {
+				c14Case(g, p, true, true, t, c14RevComp(t))
+			} else {
+				// the flags alone (the query is not the reverse complement): segments planted on, just
+				// above and just below the anti-diagonal
+				q := c14Rand(g, ql, nsym)
+				for j := g.Pick(1, 2, 3); j > 0 && ql > 0; j-- {
+					L := p.n + g.Pick(0, 0, 1, 5)
+					a := g.Intn(tl)
+					b := tl - a + g.Pick(-p.n, -p.k, -2, -1, 0, 0, 0, 1, 2, p.k)
+					c14Plant(g, t, q, a, b, L, g.Range(0, p.e))
+				}
+				c14Case(g, p, true, true, t, q)
+			}
 		default:
 			q := c14Rand(g, ql, nsym)
 			for j := g.Pick(0, 1, 1, 2, 3, 6); j > 0 && tl > 0 && ql > 0; j-- {
@@ -289,6 +332,75 @@ func c14Gen(g *hx.Gen) {
 			}
 			c14Case(g, p, false, g.Chance(0.1), t, q)
 		}
+	}
+}
+
+// c14NRuns overwrites a few stretches of s with n: single letters, runs around the word size, and
+// runs around the tube offset and the tube width (what the ticker has to step over).
+func c14NRuns(g *hx.Gen, s []byte, p c14Par) {
+	if len(s) == 0 {
+		return
+	}
+	for j := g.Pick(1, 1, 2, 3, 5); j > 0; j-- {
+		l := g.Pick(1, 1, 2, p.k-1, p.k, p.k+1, p.off, p.off+p.e, p.off+p.e+1, 2*p.off+1, 3*p.off+p.k, 5*p.off)
+		if l < 1 {
+			l = 1
+		}
+		at := g.Intn(len(s))
+		switch g.Intn(6) {
+		case 0:
+			at = 0
+		case 1:
+			at = len(s) - l
+		}
+		for i := at; i < at+l && i < len(s); i++ {
+			if i >= 0 {
+				s[i] = 'n'
+			}
+		}
+	}
+}
+
+// c14GenN: pairs with letters outside the alphabet (op fln).
+func c14GenN(g *hx.Gen) {
+	total := g.Scale(500, 5000)
+	for i := 0; i < total && !g.Done(); i++ {
+		p := c14Params(g)
+		size := g.Pick(30, 60, 100, 100, 200, 400, 400, 1000)
+		tl := g.Range(size/2, size)
+		ql := g.Range(size/2, size)
+		nsym := 4
+		if g.Chance(0.1) {
+			nsym = 2
+		}
+		t := c14Rand(g, tl, nsym)
+		q := c14Rand(g, ql, nsym)
+		nq := g.Chance(0.85)
+		if nq {
+			c14NRuns(g, q, p) // before planting: matches start right after (and end right before) a run
+		}
+		for j := g.Pick(1, 1, 2, 3, 6); j > 0; j-- {
+			L := p.n + g.Pick(0, 0, 0, 1, 2, 5, 20)
+			a, b := g.Intn(tl), g.Intn(ql)
+			switch g.Intn(5) {
+			case 0:
+				b = ql - L
+			case 1:
+				b = ql - L - g.Intn(3*p.off+p.k+2)
+			}
+			c14Plant(g, t, q, a, b, L, g.Range(0, p.e))
+		}
+		if nq && g.Chance(0.5) {
+			c14NRuns(g, q, p) // after planting: runs inside matches, at the very end of the query
+		}
+		if g.Chance(0.3) {
+			c14NRuns(g, t, p)
+		}
+		self, comp := false, g.Chance(0.1)
+		if g.Chance(0.1) {
+			self = true // the flags alone, both cuts
+		}
+		g.Casef("fln %d %d %d %d %s %s %s %s", p.k, p.n, p.e, p.off, hx.B(self), hx.B(comp), hx.Hex(t), hx.Hex(q))
 	}
 }
 
@@ -386,6 +498,159 @@ func filterFacts(repo string) (string, error) {
 	if err != nil {
 		return "", err
 	}
+	// the ticker: which of the two modelled forms the scan has
+	compact := func(n ast.Node) string {
+		var sb strings.Builder
+		printer.Fprint(&sb, fset, n)
+		return strings.Join(strings.Fields(sb.String()), "")
+	}
+	var filterBody []string // the statements of Filter
+	var callback []string   // the statements of the function literal handed to ForEachKmerOf
+	for _, d := range file.Decls {
+		fd, ok := d.(*ast.FuncDecl)
+		if !ok || fd.Body == nil || fd.Name.Name != "Filter" {
+			continue
+		}
+		for _, st := range fd.Body.List {
+			filterBody = append(filterBody, compact(st))
+		}
+		ast.Inspect(fd.Body, func(n ast.Node) bool {
+			ce, ok := n.(*ast.CallExpr)
+			if !ok || len(ce.Args) != 4 || !strings.HasSuffix(compact(ce.Fun), ".ForEachKmerOf") {
+				return true
+			}
+			if fl, ok := ce.Args[3].(*ast.FuncLit); ok {
+				for _, st := range fl.Body.List {
+					callback = append(callback, compact(st))
+				}
+			}
+			return true
+		})
+	}
+	has := func(list []string, want string) bool {
+		for _, x := range list {
+			if x == want {
+				return true
+			}
+		}
+		return false
+	}
+	const (
+		kmerLoop    = "fori:=from;i<to;i++{f.commonKmer(ki.PosAt(i),position)}"
+		countdown   = "ifticker--;ticker==0{ife:=f.tubeEnd(position);e!=nil{panic(e)}ticker=f.tubeOffset}"
+		tickFunc    = "func(passedint)error{for;ticker<=passed;ticker+=f.tubeOffset{iferr:=f.tubeEnd(ticker-1);err!=nil{returnerr}}returnnil}"
+		tickInCall  = "ife:=tick(position);e!=nil{panic(e)}"
+		tickAtEnd   = "err=tick(query.Len()-f.k+1)"
+		finalRetire = "err=f.tubeEnd(query.Len()-1)"
+	)
+	var byPosition bool
+	switch {
+	case len(callback) == 5 && callback[3] == kmerLoop && callback[4] == countdown && rhs["Filter.tick"] == "":
+		byPosition = false
+	case len(callback) == 5 && callback[0] == tickInCall && callback[4] == kmerLoop && rhs["Filter.tick"] == tickFunc &&
+		has(filterBody, tickAtEnd):
+		// tick(Qlen-k+1) must come after the scan and before the final tubeEnd
+		at := func(want string) int { // (local to this case)
+			for i, x := range filterBody {
+				if x == want {
+					return i
+				}
+			}
+			return -1
+		}
+		scan := -1
+		for i, x := range filterBody {
+			if strings.HasPrefix(x, "err=f.ki.ForEachKmerOf(query,0,query.Len(),func(") {
+				scan = i
+			}
+		}
+		if scan < 0 || !(scan < at(tickAtEnd) && at(tickAtEnd) < at(finalRetire)) {
+			return "", fmt.Errorf("filter.go: tick(query.Len()-f.k+1) is not between the scan and the final tubeEnd")
+		}
+		byPosition = true
+	default:
+		return "", fmt.Errorf("filter.go: the ticker of Filter is not a modelled variant (callback %q, tick %q)", callback, rhs["Filter.tick"])
+	}
+	// usage histories: what a *Filter carries from one call of Filter to the next. Every
+	// assignment to a field of f in the file, in source order (New builds f by a composite literal).
+	var perCall, otherWrites []string
+	for _, d := range file.Decls {
+		fd, ok := d.(*ast.FuncDecl)
+		if !ok || fd.Body == nil {
+			continue
+		}
+		head := map[ast.Stmt]bool{}
+		if fd.Name.Name == "Filter" {
+			for _, st := range fd.Body.List { // the leading run of `f.<field> = …` statements
+				as, ok := st.(*ast.AssignStmt)
+				if !ok || as.Tok != token.ASSIGN || len(as.Lhs) != 1 || !strings.HasPrefix(compact(as.Lhs[0]), "f.") {
+					break
+				}
+				head[st] = true
+				perCall = append(perCall, strings.TrimPrefix(compact(as.Lhs[0]), "f."))
+			}
+		}
+		ast.Inspect(fd.Body, func(n ast.Node) bool {
+			switch x := n.(type) {
+			case *ast.AssignStmt:
+				if head[x] {
+					return true
+				}
+				for _, l := range x.Lhs {
+					if sel, ok := l.(*ast.SelectorExpr); ok && compact(sel.X) == "f" {
+						otherWrites = append(otherWrites, sel.Sel.Name)
+					}
+				}
+			case *ast.IncDecStmt:
+				if sel, ok := x.X.(*ast.SelectorExpr); ok && compact(sel.X) == "f" {
+					otherWrites = append(otherWrites, sel.Sel.Name)
+				}
+			}
+			return true
+		})
+	}
+	at := func(want string) int {
+		for i, x := range filterBody {
+			if x == want {
+				return i
+			}
+		}
+		return -1
+	}
+	pre := func(prefix string) int {
+		for i, x := range filterBody {
+			if strings.HasPrefix(x, prefix) {
+				return i
+			}
+		}
+		return -1
+	}
+	const (
+		makeTubes   = "f.tubes=make([]tubeState,maxActiveTubes)"
+		keepTubes   = "iflen(f.tubes)!=maxActiveTubes{f.tubes=make([]tubeState,maxActiveTubes)}"
+		resetTubes  = "f.tubes=nil"
+		scanPrefix  = "err=f.ki.ForEachKmerOf(query,0,query.Len(),func("
+		flushPrefix = "fortubeIndex:=tubeFrom;tubeIndex<=tubeTo;tubeIndex++{"
+		lastReturn  = "returnf.morass.Finalise()"
+	)
+	var remake bool
+	switch {
+	case at(makeTubes) > pre("maxActiveTubes:=") && pre("maxActiveTubes:=") >= 0 && at(makeTubes) < pre(scanPrefix) &&
+		pre(flushPrefix) >= 0 && at(resetTubes) > pre(flushPrefix) && at(resetTubes) < at(lastReturn) && at(keepTubes) < 0:
+		remake = true
+	case at(keepTubes) > pre("maxActiveTubes:=") && pre("maxActiveTubes:=") >= 0 && at(keepTubes) < pre(scanPrefix) &&
+		at(makeTubes) < 0 && at(resetTubes) < 0:
+		remake = false
+	default:
+		return "", fmt.Errorf("filter.go: how Filter allocates and releases f.tubes is not a modelled variant")
+	}
+	leanList := func(xs []string) string {
+		q := make([]string, len(xs))
+		for i, x := range xs {
+			q[i] = strconv.Quote(x)
+		}
+		return "[" + strings.Join(q, ", ") + "]"
+	}
 	// the remaining expressions the model transcribes must be the ones it was written from
 	for key, want := range map[string]string{
 		"Filter.tubeWidth":      "f.tubeOffset+f.maxError",
@@ -404,8 +669,12 @@ func filterFacts(repo string) (string, error) {
 	}
 	return fmt.Sprintf("import Biogo.Model.Filter\nnamespace Biogo.Generated.FilterFacts\n\n"+
 		"/-- the retirement rule of align/pals/filter/filter.go as parsed from the source -/\n"+
-		"def rule : Biogo.Filter.Rule := { retireSubMaxError := %v, flushFromLastTick := %v }\n\n"+
-		"end Biogo.Generated.FilterFacts\n", retire, flush), nil
+		"def rule : Biogo.Filter.Rule := { retireSubMaxError := %v, flushFromLastTick := %v, tickByPosition := %v, remakeTubes := %v }\n\n"+
+		"/-- the fields of a Filter assigned at the head of (*Filter).Filter, in order -/\n"+
+		"def perCallFields : List String := %s\n\n"+
+		"/-- every other assignment to a field of a Filter in filter.go (New builds it by a composite literal), in source order -/\n"+
+		"def otherFieldWrites : List String := %s\n\n"+
+		"end Biogo.Generated.FilterFacts\n", retire, flush, byPosition, remake, leanList(perCall), leanList(otherWrites)), nil
 }
 
 func init() {
